@@ -37,5 +37,6 @@ def run(ctx):
     lib_kind.py_copy_state(ctx, py, [("genotypes", "Variant")])
     lib_variant.sample_walks(ctx, P, tus=("genotypes",), floor=1)
     lib_module.name_agreement(ctx, P, classes=("Variant",), floor=5)
+    lib_module.module_every_path(ctx, P, classes=("Variant",), floor=1)
     lib_py.facade_names(ctx, py, P, classes=(("genotypes", "Variant"),), floor=5)
     lib_mem.c_lints(ctx, ctx.program(), scopes.lib_scope("C03"))
